@@ -810,6 +810,118 @@ func (k *checker) ssets() {
 			}
 			return ""
 		})
+	// derived operands: the receiver is itself the result of an earlier operation (its
+	// per-key streams may share backing arrays / carry spare capacity); the same operation
+	// is applied twice with different arguments and the FIRST result is read again afterwards:
+	// the law must still hold for it (a result is a value, not a view that later calls rewrite).
+	if ne && !c.K2Nil {
+		shift := func(m map[int][]int, d int) map[int][]int {
+			r := map[int][]int{}
+			for kk, v := range m {
+				if v == nil {
+					r[kk] = nil
+					continue
+				}
+				w := make([]int, len(v))
+				for i, x := range v {
+					w[i] = x + d
+				}
+				r[kk] = w
+			}
+			return r
+		}
+		K2b := shift(K2, 50)
+		// padded = K1 with two extra elements per non-empty stream; pad = exactly those extras
+		padded, pad := map[int][]int{}, map[int][]int{}
+		for kk, v := range K1 {
+			if len(v) == 0 {
+				padded[kk] = v
+				continue
+			}
+			padded[kk] = append(append([]int{}, v...), 900, 901)
+			pad[kk] = []int{900, 901}
+		}
+		if len(pad) == 0 {
+			pad[99] = []int{900}
+		}
+		type derivedFam struct {
+			n   string
+			run func(op string) (first, again map[int][]int, recv map[int][]int)
+		}
+		fams := []derivedFam{
+			{"generic", func(op string) (map[int][]int, map[int][]int, map[int][]int) {
+				m := gSS(padded).MinusStreams(gSS(pad)) // content of K1 again, but obtained by removing elements
+				recv := readG(m.Keys(), m.Get)
+				apply := func(arg *fpgo.StreamSetDef[int, int]) *fpgo.StreamSetDef[int, int] {
+					switch op {
+					case "Union":
+						return m.Union(arg)
+					case "Intersection":
+						return m.Intersection(arg)
+					}
+					return m.MinusStreams(arg)
+				}
+				r1 := apply(gSS(K2))
+				first := readG(r1.Keys(), r1.Get)
+				_ = apply(gSS(K2b))
+				return first, readG(r1.Keys(), r1.Get), recv
+			}},
+			{"interface{}", func(op string) (map[int][]int, map[int][]int, map[int][]int) {
+				m := iSS(padded).MinusStreams(iSS(pad))
+				recv := readI(&m.SetForInterfaceDef)
+				apply := func(arg *fpgo.StreamSetForInterfaceDef) *fpgo.StreamSetForInterfaceDef {
+					switch op {
+					case "Union":
+						return m.Union(arg)
+					case "Intersection":
+						return m.Intersection(arg)
+					}
+					return m.MinusStreams(arg)
+				}
+				r1 := apply(iSS(K2))
+				first := readI(&r1.SetForInterfaceDef)
+				_ = apply(iSS(K2b))
+				return first, readI(&r1.SetForInterfaceDef), recv
+			}},
+		}
+		for _, op := range []string{"Union", "Intersection", "MinusStreams"} {
+			for _, f := range fams {
+				var first, again, recv map[int][]int
+				if p, _ := vlib.Try(func() { first, again, recv = f.run(op) }); p != nil {
+					k.law("StreamSet."+op+"(derived)", f.n, false, "derived receiver: %s panicked: %v", op, p)
+					continue
+				}
+				k.classes["ssets/derived-repeat"]++
+				same := len(first) == len(again)
+				for kk, v := range first {
+					if !eqInts(v, again[kk]) {
+						same = false
+					}
+				}
+				k.law("StreamSet."+op+"(derived)", f.n, same, "result of %s on a derived receiver %s with %s read %s at once but %s after a second %s on the same receiver", op, showSS(recv, false), showSS(K2, false), showSS(first, false), showSS(again, false), op)
+				// membership law on the re-read result, per key where both streams are non-empty
+				for kk, got := range again {
+					a, inA := recv[kk]
+					b, inB := K2[kk]
+					if !(inA && inB && len(a) > 0 && len(b) > 0) {
+						continue
+					}
+					var want iset
+					switch op {
+					case "Union":
+						want = setOf(append(append([]int{}, a...), b...))
+					case "Intersection":
+						want = setOf(refIntersect(a, b))
+					default:
+						want = setOf(refWithout(a, b))
+					}
+					if msg := memb(got, want); msg != "" {
+						k.law("StreamSet."+op+"(derived).perKey", f.n, false, "derived receiver %s %s %s: key %d holds %v: %s", showSS(recv, false), op, showSS(K2, false), kk, got, msg)
+					}
+				}
+			}
+		}
+	}
 	boolCell := func(cell string, g func() bool, i func() bool, want func() bool) {
 		ga, ia := callBool(g), callBool(i)
 		k.twin("StreamSet."+cell, ga, ia, false)
